@@ -150,6 +150,140 @@ def literal_value(q: str, raw: str):
     except Exception:  # noqa: malformed for Python as well
         return None
 
+# --------------------------------------------------------------------------- exact literals (round 3)
+# Literals that are EXACTLY a spelling the statement dispatcher / operator tables of the compiler compare a token's text
+# with (`::`, `=`, `matches`, `run`, `()` ...): a STRING token whose text equals such a spelling must still be a string.
+# The list is read from the source tree under test (every string constant compared with / matched against / affix-tested
+# on a token's `.string` or a name assigned from one, every punctuation-only constant in a comparison, and the module /
+# class level punctuation constants of the tokenizer), joined with a fixed floor so that a tree that deletes comparisons
+# does not shrink the set.
+DISPATCH_FILES = ["compile/lexer_func_content.py", "compile/command/var_operation.py", "compile/command/nbt_operation.py",
+                  "compile/tokenizer.py", "compile/command/condition.py", "compile/lexer.py", "compile/command/utils.py",
+                  "compile/command/_flow_control.py", "compile/utils.py"]
+SPELLING_FLOOR = ["::", ":", "=", "+=", "-=", "*=", "/=", "%=", "++", "--", "><", "<", ">", "<=", ">=", "==", "!=", "?=", "??=",
+                  ":=", "=>", "->", "<<", ">>", "!", "&&", "||", "..", "-", "*", "/", "\\", "$", "$(", "@", "@s", "#", "//",
+                  ",", ";", "(", ")", "()", "[", "]", "[]", "{", "}", "{}", "matches", "run", "with", "expand", "true", "false",
+                  "return", "execute", "say", "function", "schedule", "if", "else", "unless", "while", "for", "do", "switch",
+                  "case", "default", "break", "new", "class", "import", "storage", "entity", "block", "append", "replace"]
+# literals that are exactly a token of the TARGET language (an SNBT / JSON value that is not a string): they must stay quoted
+TARGET_TOKENS = ["0", "1", "-1", "1b", "0b", "1s", "1L", "1.5", "1.5f", "2d", ".5", "1e3", "0x10", "null", "[I;1]", "[B;]", "{a:1}",
+                 '""', "''", "1..2", "~", "^", "~ ~ ~"]
+
+
+def dispatch_spellings(repo) -> tuple[list[str], dict]:
+    import ast as A
+    import os
+
+    def consts(node, env):
+        if isinstance(node, A.Constant) and isinstance(node.value, str):
+            return [node.value]
+        if isinstance(node, (A.Set, A.Tuple, A.List)):
+            return [c for e in node.elts for c in consts(e, env)]
+        if isinstance(node, A.Dict):
+            return [c for e in node.keys if e is not None for c in consts(e, env)]
+        if isinstance(node, A.Name) and node.id in env:
+            return env[node.id]
+        if isinstance(node, A.Call) and isinstance(node.func, A.Name) and node.func.id in ("set", "frozenset", "tuple", "list") and node.args:
+            return consts(node.args[0], env)
+        if isinstance(node, A.IfExp):
+            return consts(node.body, env) + consts(node.orelse, env)
+        return []
+
+    def pat_consts(p):
+        if isinstance(p, A.MatchValue):
+            return consts(p.value, {})
+        if isinstance(p, A.MatchOr):
+            return [c for q in p.patterns for c in pat_consts(q)]
+        return []
+
+    def mentions(n, names):
+        for m in A.walk(n):
+            if isinstance(m, A.Attribute) and m.attr == "string":
+                return True
+            if isinstance(m, A.Name) and m.id in names:
+                return True
+        return False
+
+    def usable(c):
+        return 0 < len(c) <= 10 and c.isascii() and c.isprintable() and not re.search(r"\s", c)
+
+    def punct(c):
+        return not re.search(r"[A-Za-z0-9_]", c)
+
+    tokenish, puncts, unread = set(), set(), []
+    for f in DISPATCH_FILES:
+        path = os.path.join(str(repo), "src", "jmc", f)
+        try:
+            tree = A.parse(open(path, encoding="utf-8").read())
+        except Exception as e:  # noqa: a file that moved or does not parse: recorded, the floor still applies
+            unread.append(f"{f}: {type(e).__name__}")
+            continue
+        env, names = {}, set()
+        for n in A.walk(tree):
+            if isinstance(n, (A.Assign, A.AnnAssign)) and n.value is not None:
+                c = consts(n.value, {})
+                for t in (n.targets if isinstance(n, A.Assign) else [n.target]):
+                    if isinstance(t, A.Name) and c:
+                        if isinstance(n.value, A.Constant):
+                            puncts.update(x for x in c if usable(x) and punct(x))       # Re.SEMICOLON = ";" ...
+                        else:
+                            env[t.id] = c
+                            puncts.update(x for x in c if usable(x) and punct(x))       # OPERATORS = {...}
+        for _ in range(3):
+            for n in A.walk(tree):
+                if isinstance(n, (A.Assign, A.AnnAssign)) and n.value is not None and mentions(n.value, names):
+                    for t in (n.targets if isinstance(n, A.Assign) else [n.target]):
+                        if isinstance(t, A.Name):
+                            names.add(t.id)
+        for n in A.walk(tree):
+            found, tok = [], False
+            if isinstance(n, A.Compare):
+                sides = [n.left] + n.comparators
+                found = [c for x in sides for c in consts(x, env)]
+                tok = any(mentions(x, names) for x in sides)
+            elif isinstance(n, A.Call) and isinstance(n.func, A.Attribute) and n.func.attr in ("startswith", "endswith"):
+                found = [c for a in n.args for c in consts(a, env)]
+                tok = mentions(n.func.value, names)
+            elif isinstance(n, A.Match):
+                found = [c for case in n.cases for c in pat_consts(case.pattern)]
+                tok = mentions(n.subject, names)
+            for c in found:
+                if usable(c):
+                    if tok:
+                        tokenish.add(c)
+                    if punct(c):
+                        puncts.add(c)
+    derived = tokenish | puncts
+    floor = list(SPELLING_FLOOR)
+    allsp = sorted(set(floor) | derived | set(TARGET_TOKENS))
+    return allsp, dict(derived=len(derived), token_comparisons=len(tokenish), punctuation=len(puncts), floor=len(floor),
+                       target_tokens=len(TARGET_TOKENS), total=len(allsp), unread=unread,
+                       derived_not_in_floor=sorted(derived - set(floor))[:200])
+
+
+def exact_source(text: str) -> tuple[str, str] | None:
+    """(quote, source text between the quotes) of a literal whose VALUE is exactly `text`"""
+    q = "'" if '"' in text and "'" not in text else '"'
+    raw = text.replace(BS, BS + BS).replace(q, BS + q)
+    return q, raw
+
+
+def exact_literals(repo):
+    """[(name, quote, raw source text)] - no marker inside: the output line is located with a twin program"""
+    sp, info = dispatch_spellings(repo)
+    out = []
+    for t in sp:
+        for form, text in (("", t), ("lead", " " + t), ("trail", t + " ")):
+            q, raw = exact_source(text)
+            out.append((f"exact{'-' + form if form else ''}:{t}", q, raw, form))
+    # the empty literal, a blank, and (seeder) literals that END with a backslash, alone
+    for name, text in (("exact:<empty>", ""), ("exact:<blank>", " "), ("exact:<backslash-tail>", "C:" + BS),
+                       ("exact:<path-backslash-tail>", "C:" + BS + "Users" + BS)):
+        q, raw = exact_source(text)
+        out.append((name, q, raw, ""))
+    return out, info
+
+
 # --------------------------------------------------------------------------- carriers
 # name -> (source template with %s for the quoted literal, Coq constructor, pre, post, kind, command word)
 CARRIERS = {
@@ -162,7 +296,20 @@ CARRIERS = {
     "nbt-give": ('give @s stone{display:{Name:%s}} 1;', "KNbt", 'give @s stone{display:{Name:', '}} 1', "nbt", "give @s stone"),
     "nbt-list": ('data modify storage a:b l set value [%s,"z"];', "KNbt", 'data modify storage a:b l set value [', ',"z"]', "nbt", "data modify storage a:b l set value "),
     "text": ('Text.tellraw(@a, %s);', "KText", 'tellraw @a ', '', "text", "tellraw @a "),
+    # (round 3) the literal as token 1 of the statement - the position the statement dispatcher looks at - alone and followed by a word
+    "me": ('me %s;', "KJson", 'me ', '', "json", "me "),
+    "me-tail": ('me %s now;', "KJson", 'me ', ' now', "json", "me "),
+    # `function "<string>";` - the third statement form that copies a string literal to the output as it is (besides say; the
+    # special case sits next to say's in the statement dispatcher).  Outside the Coq model (oracle only), exact literals only.
+    "function-str": ('function %s;', None, 'function ', '', "raw", "function "),
 }
+JSON_TAIL = {"me-tail": " now"}          # text after the JSON value that belongs to the command, not to the value
+# `me-tail` is used for exact literals only: a string token followed by a keyword is "connected" when Token.end says so, and
+# Token.end of a string is col + len(repr(value)), which is not its source length when the source holds a raw tab, an escape or
+# a non-printable character (`me "a<TAB>b" now` is refused: "Expected whitespace between string and a keyword") - that is the
+# adjacency relation of C15 (there: out-of-scope event `s_ev`), not a literal that fails to reach the output.
+EXACT_ONLY_CARRIERS = {"me-tail", "function-str"}
+ORACLE_ONLY_CARRIERS = {k for k, v in CARRIERS.items() if v[1] is None}
 MAIN_CARRIERS = ["say", "json-str", "json-obj", "nbt-merge", "text"]
 
 # --------------------------------------------------------------------------- contexts
@@ -231,12 +378,34 @@ def stack_name(st):
     return "/".join([st[0]] + st[1] + st[2])
 
 
-def build_case(idx: int, lit, carrier: str, stack, cert_i: int) -> dict:
-    name, q, pre, post = lit
-    raw = pre + mark(idx) + post
+def build_item(idx: int, q: str, raw: str, carrier: str, stack) -> str:
     # (a backtick string glued to a preceding `:` / `[` is not recognised by the tokenizer - refused with a
     #  diagnostic, reported as a minor finding - so it gets a blank in front)
     stmt = CARRIERS[carrier][0] % ((" " if q == "`" else "") + q + raw + q)
+    top, blocks, stmts = stack
+    body = stmt
+    for s in reversed(stmts):
+        body = STMT_CTX[s][0](body)
+    for b in reversed(blocks):
+        body = BLOCK_CTX[b][0](body)
+    if top == "func":
+        return f"function c{idx}() {{ {body} }}"
+    if top == "method":
+        return f"class k{idx} {{ function m() {{ {body} }} }}"
+    return body
+
+
+def build_case(idx: int, lit, carrier: str, stack, cert_i: int) -> dict:
+    """lit = (name, quote, text before the marker, text after it)  - marker case, or
+             (name, quote, raw, form) with form in ("", "lead", "trail") and name starting with "exact" - exact case: the
+             literal holds NO marker; the output line is the one at the place of the marker line of the twin program
+             (same program with the literal "<marker>")."""
+    exact = lit[0].startswith("exact")
+    if exact:
+        name, q, raw, _form = lit
+    else:
+        name, q, pre, post = lit
+        raw = pre + mark(idx) + post
     v = CERTS[cert_i]["VAR"]
     top, blocks, stmts = stack
     ctx_terms = [TOP_CTX[top]]
@@ -244,45 +413,37 @@ def build_case(idx: int, lit, carrier: str, stack, cert_i: int) -> dict:
         ctx_terms.append(BLOCK_CTX[b][1](v))
     for s in stmts:
         ctx_terms.append(STMT_CTX[s][1](v))
-    body = stmt
-    for s in reversed(stmts):
-        body = STMT_CTX[s][0](body)
-    for b in reversed(blocks):
-        body = BLOCK_CTX[b][0](body)
-    if top == "func":
-        item = f"function c{idx}() {{ {body} }}"
-    elif top == "method":
-        item = f"class k{idx} {{ function m() {{ {body} }} }}"
-    else:
-        item = body
+    item = build_item(idx, q, raw, carrier, stack)
     value = literal_value(q, raw)
     return dict(idx=idx, lit=name, q=q, raw=raw, carrier=carrier, stack=stack_name(stack), ctxs=blocks + stmts,
-                cert=cert_i, item=item, ctx_terms=ctx_terms, value=value,
+                cert=cert_i, item=item, ctx_terms=ctx_terms, value=value, exact=exact,
+                twin=build_item(idx, '"', mark(idx), carrier, stack) if exact else None,
                 hint_error=(name in ERROR_HINT) or (carrier == "say" and value is not None and ("\n" in value or "\r" in value)),
                 expect_unmodelled=(name in UNMODELLED_LITERALS) or
                                   (carrier == "text" and value is not None and "&" in value))
 
 
-def gen_cases(rng, tier: str) -> list[dict]:
+def gen_cases(rng, tier: str, exact=()) -> list[dict]:
     combos = []
     # full cross: every literal x core context x main carrier
     for lit in LITERALS:
         for st in CORE_STACKS:
             for ca in MAIN_CARRIERS:
                 combos.append((lit, ca, st))
-    others = [c for c in CARRIERS if c not in MAIN_CARRIERS]
+    marker_carriers = [c for c in CARRIERS if c not in EXACT_ONLY_CARRIERS]
+    others = [c for c in marker_carriers if c not in MAIN_CARRIERS]
     if tier == "thorough":
         for lit in LITERALS:
             for st in CORE_STACKS:
                 for ca in others:
                     combos.append((lit, ca, st))
             for st in MORE_STACKS:
-                for ca in CARRIERS:
+                for ca in marker_carriers:
                     combos.append((lit, ca, st))
     else:
         # rotating coverage: every (literal, extra context) and every (literal, extra carrier) pair at least once
         k = 0
-        allc = list(CARRIERS)
+        allc = list(marker_carriers)
         for lit in LITERALS:
             for st in MORE_STACKS:
                 combos.append((lit, allc[k % len(allc)], st))
@@ -306,7 +467,31 @@ def gen_cases(rng, tier: str) -> list[dict]:
             stn.sort(key=lambda s: {"execrun": 0, "return": 1}.get(s, 2))
             if "return" in stn and any(x in ASSIGN_KINDS for x in stn):
                 stn.remove("return")
-        combos.append((rng.choice(LITERALS), rng.choice(list(CARRIERS)), (rng.choice(["func", "func", "method", "top"]), bl, stn)))
+        combos.append((rng.choice(LITERALS), rng.choice(marker_carriers), (rng.choice(["func", "func", "method", "top"]), bl, stn)))
+    # ---- (round 3) exact literals: the spelling alone in every carrier in the plain function context and in further
+    #      context stacks (rotating; full cross with the core stacks in the thorough tier); with one leading / trailing blank
+    #      in the main carriers and `me`
+    all_stacks = CORE_STACKS + MORE_STACKS
+    blank_carriers = MAIN_CARRIERS + ["me", "function-str"]
+    k = 0
+    for lit in exact:
+        if lit[3] == "":
+            for ca in CARRIERS:
+                combos.append((lit, ca, ("func", [], [])))
+                # behind `execute ... run` the statement dispatcher runs again in another state (is_execute, key_pos > 0)
+                combos.append((lit, ca, ("func", [], ["execrun"])))
+                if tier == "thorough":
+                    for st in CORE_STACKS:
+                        if st != ("func", [], []):
+                            combos.append((lit, ca, st))
+                    combos.append((lit, ca, MORE_STACKS[k % len(MORE_STACKS)]))
+                else:
+                    combos.append((lit, ca, all_stacks[k % len(all_stacks)]))
+                k += 1
+        else:
+            for ca in (CARRIERS if tier == "thorough" else blank_carriers):
+                combos.append((lit, ca, all_stacks[k % len(all_stacks)]))
+                k += 1
     cases = []
     for i, (lit, ca, st) in enumerate(combos):
         cases.append(build_case(i, lit, ca, st, i % len(CERTS)))
@@ -336,8 +521,104 @@ def outcome_of(res: dict, marker: str) -> dict:
     return dict(kind="missing", hits=[h[1] for h in hits][:5])
 
 
+def exact_outcome(ra: dict, rb: dict, case: dict, alone: bool) -> dict:
+    """outcome of an exact case: ra = result of the twin program(s) (literal = the marker), rb = result of the program(s)
+    with the exact literal.  The line is the one at the place of the twin's marker line; when the case was compiled alone
+    every OTHER line of the output must be the same in both."""
+    marker = mark(case["idx"])
+    if not ra["ok"]:
+        return dict(kind="missing", hits=[], why="the twin program (literal = marker) does not compile: " + str(ra.get("msg", ""))[:200])
+    if not rb["ok"]:
+        return outcome_of(rb, marker)
+    hits = []
+    for path, text in ra["files"].items():
+        if path.endswith(".mcfunction"):
+            for n, line in enumerate(text.split("\n")):
+                if marker in line:
+                    hits.append((path, n, line))
+    if len(hits) != 1:
+        return dict(kind="missing", hits=[h[2] for h in hits][:5], why="twin: marker line not unique")
+    path, n, twin_line = hits[0]
+    other = rb["files"].get(path)
+    if other is None:
+        return dict(kind="missing", hits=[], why=f"no file {path} (the twin program has it)")
+    lines = other.split("\n")
+    if len(lines) != len(ra["files"][path].split("\n")):
+        return dict(kind="missing", hits=lines[:6], why=f"{path} has {len(lines)} lines, {len(ra['files'][path].split(chr(10)))} with the twin literal")
+    out = dict(kind="line", line=lines[n], path=path, twin_line=twin_line)
+    if alone:
+        diff = []
+        for p in sorted(set(ra["files"]) | set(rb["files"])):
+            a, b = ra["files"].get(p), rb["files"].get(p)
+            if a == b:
+                continue
+            if a is None or b is None:
+                diff.append(dict(path=p, twin=a is not None, exact=b is not None))
+                continue
+            la, lb = a.split("\n"), b.split("\n")
+            for i in range(max(len(la), len(lb))):
+                x, y = (la[i] if i < len(la) else None), (lb[i] if i < len(lb) else None)
+                if x != y and not (p == path and i == n):
+                    diff.append(dict(path=p, line=i, twin=x, exact=y))
+        if diff:
+            out["collateral"] = diff[:6]
+    return out
+
+
+def files_differ_elsewhere(ra: dict, rb: dict, markers: set) -> bool:
+    """batch of exact cases: does anything but the marker lines differ between the twin batch and the exact batch?"""
+    if set(ra["files"]) != set(rb["files"]):
+        return True
+    for p, a in ra["files"].items():
+        b = rb["files"][p]
+        if a == b:
+            continue
+        la, lb = a.split("\n"), b.split("\n")
+        if len(la) != len(lb):
+            return True
+        for x, y in zip(la, lb):
+            if x != y and not any(m in x for m in markers):
+                return True
+    return False
+
+
 def run_real(cases: list[dict]) -> None:
     """fills case['real'] for every case"""
+    run_real_marked([c for c in cases if not c["exact"]])
+    ex = [c for c in cases if c["exact"]]
+    singles = [c for c in ex if c["hint_error"]]
+    groups = []
+    for ci in range(len(CERTS)):
+        part = [c for c in ex if c["cert"] == ci and not c["hint_error"]]
+        for s in range(0, len(part), 120):
+            groups.append(part[s:s + 120])
+    jobs = []
+    for g in groups:
+        cert = cert_text(CERTS[g[0]["cert"]])
+        jobs.append(dict(src="\n".join(c["twin"] for c in g), cert=cert))
+        jobs.append(dict(src="\n".join(c["item"] for c in g), cert=cert))
+    results = compile_batch(jobs, chunk=4)
+    for gi, g in enumerate(groups):
+        ra, rb = results[2 * gi], results[2 * gi + 1]
+        if ra["ok"] and rb["ok"] and not files_differ_elsewhere(ra, rb, {mark(c["idx"]) for c in g}):
+            for c in g:
+                c["real"] = exact_outcome(ra, rb, c, alone=False)
+            # a line that is not the expected one is looked at again with the case compiled alone (collateral damage is
+            # then attributed to the case)
+            singles.extend(c for c in g if c["real"]["kind"] != "line")
+        else:
+            singles.extend(g)
+    jobs = []
+    for c in singles:
+        cert = cert_text(CERTS[c["cert"]])
+        jobs.append(dict(src=c["twin"], cert=cert))
+        jobs.append(dict(src=c["item"], cert=cert))
+    results = compile_batch(jobs, chunk=100)
+    for i, c in enumerate(singles):
+        c["real"] = exact_outcome(results[2 * i], results[2 * i + 1], c, alone=True)
+
+
+def run_real_marked(cases: list[dict]) -> None:
     singles = [c for c in cases if c["hint_error"]]
     batched = [c for c in cases if not c["hint_error"]]
     groups = []
@@ -422,24 +703,39 @@ def oracle(case) -> dict | None:
     if real["kind"] == "missing":
         return dict(kind="literal-lost", hits=real.get("hits"))
     line = real["line"]
+    if real.get("collateral"):
+        return dict(kind="other-output-changed", note="lines other than the literal's own line depend on the literal",
+                    differences=real["collateral"], actual=line)
     if v is None:
         return dict(kind="malformed-literal-accepted", line=line)
     exp = expected_text(case)
     if exp is None:
         return None
     word = CARRIERS[case["carrier"]][5]
-    if kind == "say":
-        cmd = "say " + exp
+    if kind in ("say", "raw"):
+        cmd = word + exp
         if not line.endswith(cmd):
             return dict(kind="text-differs", expected=cmd, actual=line)
         head = line[:len(line) - len(cmd)]
     else:
         m = mark(case["idx"])
-        at = line.rfind(word, 0, line.find(m))
+        if case.get("exact"):
+            # the text in front of the command does not depend on the literal: the command starts where the twin's does
+            tl = real["twin_line"]
+            at = tl.rfind(word, 0, tl.find(m))
+            if at < 0 or line[:at] != tl[:at] or not line.startswith(word, at):
+                return dict(kind="command-not-found", expected_word=word, actual=line, twin_line=tl)
+        else:
+            at = line.rfind(word, 0, line.find(m))
         if at < 0:
             return dict(kind="command-not-found", expected_word=word, actual=line)
         head, payload = line[:at], line[at + len(word):]
         if kind in ("json", "text"):
+            tail = JSON_TAIL.get(case["carrier"], "")
+            if tail:
+                if not payload.endswith(tail):
+                    return dict(kind="json-shape-differs", expected_suffix=tail, actual=line)
+                payload = payload[:len(payload) - len(tail)]
             try:
                 obj = json.loads(payload)
             except Exception as e:  # noqa
@@ -465,6 +761,10 @@ def oracle(case) -> dict | None:
         return dict(kind="prefix-damaged", prefix=head, actual=line)
     if mark(case["idx"]) in head:
         return dict(kind="prefix-damaged", prefix=head, actual=line)
+    if case.get("exact") and kind in ("say", "raw"):
+        tl, tcmd = real["twin_line"], word + mark(case["idx"])
+        if not tl.endswith(tcmd) or head != tl[:len(tl) - len(tcmd)]:
+            return dict(kind="prefix-damaged", prefix=head, actual=line, twin_line=tl)
     return None
 
 
@@ -533,10 +833,46 @@ def model_lines(cases) -> list[str]:
 
 
 # --------------------------------------------------------------------------- known findings
+# proposed entries of known_findings.json: genuine defects of /repo HEAD found by the exact-literal stream (round 3), each
+# repaired by a patch under /verif/fixes/.  Once a patch is committed the failure no longer occurs; delete its entry here
+# so that a regression is a VIOLATION.
+_FIX = "fixes/C09-string-literal-taken-for-operator.patch"
+PROPOSED_KNOWN = {
+    "C09-string-dcolon-taken-for-nbt-operator": dict(
+        id="C09-string-dcolon-taken-for-nbt-operator", property="C09", fix=_FIX,
+        what='a string literal that is exactly "::" as the second token of a command is taken for the NBT operator: `me "::";` emits '
+             '`data get storage <namespace>:me`, silently (nbt_operation.get_nbt_type compares token text without the token type)',
+        match=dict(kinds=["command-not-found", "valid-literal-refused"], value_exact=["::"], carriers=["me", "me-tail"])),
+    "C09-string-colon-taken-for-objective-selector": dict(
+        id="C09-string-colon-taken-for-objective-selector", property="C09", fix=_FIX,
+        what='a string literal that is exactly ":" as the second token of a longer command is taken for objective:selector syntax: '
+             '`me ":" now;` is refused (lexer_func_content.__expect_command)',
+        match=dict(kinds=["valid-literal-refused"], value_exact=[":"], carriers=["me-tail"], msg_contains="objective:selector")),
+    "C09-string-matches-taken-for-keyword": dict(
+        id="C09-string-matches-taken-for-keyword", property="C09", fix=_FIX,
+        what='a string literal that is exactly "matches" as an argument of a command is taken for the keyword: `tellraw @a "matches";` '
+             'is refused (lexer_func_content.__not_expect_command)',
+        match=dict(kinds=["valid-literal-refused"], value_exact=["matches"], carriers=["json-str", "me", "me-tail"],
+                   msg_contains="after 'matches'")),
+    "C09-string-equals-taken-for-empty-key": dict(
+        id="C09-string-equals-taken-for-empty-key", property="C09", fix=_FIX,
+        what='a string literal that is exactly "=" as a whole argument of a built-in call is taken for an empty keyword argument: '
+             '`Text.tellraw(@a, "=");` is refused (tokenizer.__parse_func_arg)',
+        match=dict(kinds=["valid-literal-refused"], value_exact=["="], carriers=["text"], msg_contains="Empty key")),
+}
+
+
 def known_class(case, fail):
-    for f in known_for(PROP):
+    listed = {f["id"] for f in known_for(PROP)}
+    for f in known_for(PROP) + [v for k, v in PROPOSED_KNOWN.items() if k not in listed]:
         m = f.get("match", {})
         if fail["kind"] not in m.get("kinds", []):
+            continue
+        if m.get("raw_exact") and case["raw"] not in m["raw_exact"]:
+            continue
+        if m.get("value_exact") and case["value"] not in m["value_exact"]:
+            continue
+        if m.get("msg_contains") and m["msg_contains"] not in str(fail.get("msg", "")):
             continue
         if m.get("contexts") and not (set(m["contexts"]) & set(case["ctxs"])):
             continue
@@ -568,6 +904,7 @@ def root_of(case, fail) -> str:
 
 def replay_obj(case, fail) -> dict:
     return dict(kind=fail["kind"], literal=case["lit"], source_literal=case["q"] + case["raw"] + case["q"],
+                exact=bool(case.get("exact")), twin_src=case.get("twin"), quote=case["q"],
                 carrier=case["carrier"], contexts=case["stack"], src=case["item"], jmc_txt=CERTS[case["cert"]],
                 marker=mark(case["idx"]), expected_value=case["value"], failure=fail,
                 real=case["real"], case=dict(idx=case["idx"], lit=case["lit"], carrier=case["carrier"],
@@ -599,9 +936,17 @@ def main(tier: str) -> int:
         if p.returncode != 0 or "* Axioms: <none>" not in out:
             ck.violation(dict(kind="coqchk-failed", log=out[-3000:]), no_input=True)
 
-    cases = gen_cases(ck.rng, tier)
+    from lib import REPO
+    exact, exact_info = exact_literals(REPO)
+    if exact_info["derived"] < 60 or exact_info["unread"]:
+        ck.violation(dict(kind="generator-ineffective", what="fewer than 60 dispatch spellings could be read from the source tree "
+                          "(files moved or no longer parse?); the exact-literal stream runs on the fixed floor only", info=exact_info),
+                     no_input=True)
+    cases = gen_cases(ck.rng, tier, exact)
     run_real(cases)
-    mism, unmod, mism_pinned, errs = eval_cases(cases)
+    coq_idx = [i for i, c in enumerate(cases) if c["carrier"] not in ORACLE_ONLY_CARRIERS]
+    mism, unmod, mism_pinned, errs = eval_cases([cases[i] for i in coq_idx])
+    mism, unmod, mism_pinned = ({coq_idx[i] for i in x} for x in (mism, unmod, mism_pinned))
     for e in errs:
         ck.violation(dict(kind="correspondence-file-failed", log=e), no_input=True)
 
@@ -615,7 +960,7 @@ def main(tier: str) -> int:
     for i, f in fails.items():
         c = cases[i]
         kf = known_class(c, f)
-        if kf and i not in mism_pinned:
+        if kf and (i not in mism_pinned or kf["id"] in PROPOSED_KNOWN):
             ck.known(kf["id"], kf["what"])
             continue
         reported.setdefault(root_of(c, f), []).append(i)
@@ -639,7 +984,7 @@ def main(tier: str) -> int:
                           n_differing=len(silent),
                           cases=[dict(src=c["item"], literal=c["lit"], carrier=c["carrier"], contexts=c["stack"],
                                       real=c["real"], model=m) for c, m in zip(show, ml)]), no_input=True)
-    exp_unmod = {i for i, c in enumerate(cases) if c["expect_unmodelled"]}
+    exp_unmod = {i for i, c in enumerate(cases) if c["expect_unmodelled"] and c["carrier"] not in ORACLE_ONLY_CARRIERS}
     if unmod != exp_unmod and not errs:
         diff = sorted(unmod ^ exp_unmod)[:5]
         ck.violation(dict(kind="model-coverage-differs", note="cases the Coq model declares unmodelled differ from the declared set",
@@ -651,7 +996,8 @@ def main(tier: str) -> int:
         hist_c[c["carrier"]] = hist_c.get(c["carrier"], 0) + 1
         hist_s[c["stack"]] = hist_s.get(c["stack"], 0) + 1
         hist_o[c["real"]["kind"]] = hist_o.get(c["real"]["kind"], 0) + 1
-    distinct = len({(c["lit"], c["carrier"], c["stack"], c["cert"]) for c in cases if not c["expect_unmodelled"]})
+    distinct = len({(c["lit"], c["carrier"], c["stack"], c["cert"]) for c in cases
+                    if not c["expect_unmodelled"] and c["carrier"] not in ORACLE_ONLY_CARRIERS})
     ck.cov.update(dict(
         evaluations=len(cases), distinct_nontrivial=distinct,
         rule=f"{len(LITERALS)} adversarial literals x {len(CORE_STACKS)} core context stacks x {len(MAIN_CARRIERS)} main carriers (full cross) "
@@ -663,9 +1009,13 @@ def main(tier: str) -> int:
                            [c for c in cases if c["lit"] in ("both-quotes", "astral-emoji", "bt-quotes", "bad-x") and c["stack"] == "func/execblock"][:6] +
                            cases[-2:])],
         programs=len(cases), disagreements_checked=len(mism), oracle_failures=len(fails),
-        oracle_only=len(exp_unmod), pinned_model_disagreements=len(mism_pinned),
+        oracle_only=len(exp_unmod) + len(cases) - len(coq_idx), pinned_model_disagreements=len(mism_pinned),
         branch_histogram=dict(carrier=hist_c, outcome=hist_o, stacks=len(hist_s)),
         literals=len(LITERALS), carriers=len(CARRIERS), context_stacks=len(hist_s),
+        exact_literals=dict(exact_info, literals=len(exact), cases=sum(1 for c in cases if c["exact"]),
+                            recompiled_alone=sum(1 for c in cases if c["exact"] and "collateral" in c["real"]),
+                            rule="literal == a spelling the dispatcher compares token text with (read from the tree), alone / one leading / "
+                                 "one trailing blank; no marker inside: the line is located by a twin program with the literal \"<marker>\""),
         correspondence="model line == real marker line (exact code points) for every modelled case; "
                        "diagnostic <-> diagnostic; plus decode-and-compare oracle on every real line",
     ))
@@ -681,12 +1031,17 @@ def replay(path: str) -> int:
         return 1
     res, = compile_batch([dict(src=obj["src"], cert=cert_text(obj["jmc_txt"]))])
     co = obj["case"]
-    lit = [l for l in LITERALS if l[0] == co["lit"]][0]
+    q = obj.get("quote") or [l for l in LITERALS if l[0] == co["lit"]][0][1]
     # rebuild the case around the stored program
-    case = dict(idx=co["idx"], lit=co["lit"], q=lit[1], raw=obj["source_literal"][1:-1], carrier=co["carrier"],
+    case = dict(idx=co["idx"], lit=co["lit"], q=q, raw=obj["source_literal"][1:-1], carrier=co["carrier"],
                 stack=co["stack"], ctxs=co["stack"].split("/")[1:], cert=co["cert"], item=obj["src"],
-                value=obj["expected_value"])
-    case["real"] = outcome_of(res, obj["marker"])
+                value=obj["expected_value"], exact=bool(obj.get("exact")), twin=obj.get("twin_src"))
+    if case["exact"]:
+        twin, = compile_batch([dict(src=obj["twin_src"], cert=cert_text(obj["jmc_txt"]))])
+        case["real"] = exact_outcome(twin, res, case, alone=True)
+        print("twin program   :", obj["twin_src"])
+    else:
+        case["real"] = outcome_of(res, obj["marker"])
     f = oracle(case)
     print("source literal :", obj["source_literal"])
     print("expected value :", repr(obj["expected_value"]))
